@@ -483,6 +483,95 @@ def expected(line):
         return None
 
 
+# ------------------------------------------------------------------------------------------------- integer family
+# Theorem-level oracle for `num_ops_exact_on_integers` / `number_ops_agree_with_s64_ops` (Props/C14.lean): for integers x, y of
+# magnitude <= 2^53 every type mix (number, int/s64, int/u64 on either side) of + - * div mod % must yield the same *integer*,
+# computed here with Python ints only (no float arithmetic, unlike `num_binop`).
+
+INT_FAMILY_OPS = ["+", "-", "*", "div", "mod", "%"]
+INT_FAMILY_MIXES = [("n", "n"), ("s", "s"), ("n", "s"), ("s", "n"), ("u", "u"), ("u", "n"), ("n", "u")]
+
+
+def int_family_spec(op, x, y, has_u=False):
+    """the integer all type mixes must agree on, or None where the theorems make no claim"""
+    if op in ("+", "-", "*"):
+        r = x + y if op == "+" else (x - y if op == "-" else x * y)
+        if abs(r) > T53 or (has_u and r < 0):
+            return None
+        return r
+    if y == 0:
+        return None
+    if op == "div":
+        return x // y                                   # Python // is floor division
+    if op == "mod":
+        if abs(y * (x // y)) > T53:                     # side condition of num_mod_int (the number path rounds the product)
+            return None
+        return x % y                                    # sign of the divisor
+    r = abs(x) % abs(y)                                 # C remainder: sign of the dividend
+    return -r if x < 0 else r
+
+
+def int_family_value(res):
+    """integer value of a result string n:<bits> / s:<int> / u:<int>, None if not an integer"""
+    if res is None or len(res) < 3 or res[1] != ":":
+        return None
+    if res[0] in "su":
+        try:
+            return int(res[2:])
+        except ValueError:
+            return None
+    if res[0] == "n":
+        try:
+            d = b2f(int(res[2:], 16))
+        except ValueError:
+            return None
+        if d != d or abs(d) == math.inf or d != math.floor(d):
+            return None
+        return int(d)
+    return None
+
+
+def int_family_lines(rng, n):
+    """(line, op, x, y, has_u) for n integer pairs x all mixes; operands chosen to put quotients next to integers and products next to 2^53"""
+    special = [0, 1, -1, 2, -2, 3, -3, 7, -7, 10, -10, T53, -T53, T53 - 1, -(T53 - 1), T53 - 2, 1 << 52, (1 << 52) + 1, -(1 << 52) - 1, 1 << 26, (1 << 27) - 1,
+               94906265, 94906266, -94906267, 6004799503160661, -6004799503160661, 3002399751580331]
+    def pick():
+        k = rng.below(8)
+        if k == 0:
+            return rng.choice(special)
+        if k == 1:
+            return rng.range(-1000, 1000)
+        if k == 2:
+            return rng.range(-T53, T53)
+        if k == 3:
+            v = T53 - rng.below(1 << rng.range(1, 20))
+            return v if rng.chance(1, 2) else -v
+        if k == 4:
+            v = rng.below(1 << rng.range(1, 53))
+            return v if rng.chance(1, 2) else -v
+        if k == 5:
+            v = (1 << rng.range(0, 53)) + rng.range(-2, 2)
+            return max(-T53, min(T53, v if rng.chance(1, 2) else -v))
+        if k == 6:
+            return rng.range(-(1 << 27), 1 << 27)
+        return rng.range(-(1 << 32), 1 << 32)
+    out = []
+    for i in range(n):
+        x, y = pick(), pick()
+        if y != 0 and rng.chance(1, 4):
+            lim = T53 // abs(y)
+            q = rng.range(-lim, lim)
+            x = max(-T53, min(T53, q * y + rng.choice([0, 1, -1, abs(y) - 1, 1 - abs(y)])))
+        op = INT_FAMILY_OPS[i % len(INT_FAMILY_OPS)]
+        for ta, tb in INT_FAMILY_MIXES:
+            if (ta == "u" and x < 0) or (tb == "u" and y < 0):
+                continue
+            fa = "n:%016x" % f2b(float(x)) if ta == "n" else "%s:%d" % (ta, x)
+            fb = "n:%016x" % f2b(float(y)) if tb == "n" else "%s:%d" % (tb, y)
+            out.append(("%s %s %s" % (op, fa, fb), op, x, y, "u" in (ta, tb)))
+    return out
+
+
 # ------------------------------------------------------------------------------------------------- generator
 
 def boundary_ints():
